@@ -290,7 +290,18 @@ def gen_stream(rng, tree):
     parts = valid_session(rng, tree, rng.range(1, 8))
     stream = MAGIC + b"".join(p for p, _ in parts)
     desc = [d for _, d in parts]
-    kind = rng.below(14)
+    kind = rng.below(16)
+    if kind >= 14 and tree:
+        # Put below a path that is a regular FILE: the handler hits a file-system error. The content that
+        # follows is itself a well-formed Delete frame: it must never be interpreted as a request.
+        victim = sorted(tree)[0]
+        inner = frame(req_delete(victim, bytes.fromhex(blake3_hex([tree[victim]])[0]))) + frame(req_hello())
+        h = bytes.fromhex(blake3_hex([inner])[0])
+        bad = frame(req_put(victim + "/x", None, len(inner), h)) + inner
+        k = rng.below(len(parts) + 1)
+        return MAGIC + b"".join(p for p, _ in parts[:k]) + bad + b"".join(p for p, _ in parts[k:]), "put-below-a-file", desc[:k] + [f"put {victim}/x (content = a Delete frame)"] + desc[k:]
+    if kind >= 14:
+        kind = 0
     if kind == 0:
         return stream, "valid", desc
     if kind == 1:
